@@ -4,6 +4,7 @@ import PdshVerif.Pcp.Session
 import PdshVerif.Pcp.Links
 import PdshVerif.Pcp.Statics
 import PdshVerif.Pcp.ClientStatics
+import PdshVerif.Pcp.DeepSession
 import Driver.Util
 
 /-! line protocol of the `pcp` engine (C11, C12): the receiver model `sink`, the sender model `send`,
@@ -20,6 +21,8 @@ the command-line construction and the two specifications, driven by checks/c11.p
     spec12 DESTPATH PATH...
     cmdf   PROG R P NENT DEST            cmdr PROG R P HOST FILE...
     norm   CWD STRING                    (lexical normal form of a path string)
+    deep   P Y UMASK CNT RULE DIRCHMOD FSIZE CWD DEST REVERSE HOST SUBSEC SENTFIX NFS FSENTRY... SRCTOKENS...
+                                         (Pcp/Deep.lean `classifyTop`, `dTopFs`, `dTopBad`)
     cstatics                             (Pcp/ClientStatics.lean: the same for pcp_client.c, the client threads of a forward copy)
     statics ERRFPSHARED                  (Pcp/Statics.lean: the static objects of pcp_server.c the model accounts for, the
                                          process-wide libc calls it does not cover, and those it does)
@@ -324,6 +327,26 @@ def handle (line : String) : String :=
         s!"nent={(expandAll srcs).length} c2slen={s.sent.length} c2scrc={(crc32 s.sent).toNat} c2s={shown} " ++
           s!"failed={if s.failed then 1 else 0} dead={if s.dead then 1 else 0} early={early} " ++
           showResult es (finish o s.st)
+      | _, _ => "bad-op"
+    | _, _, _ => "bad-op"
+  | "deep" :: p :: y :: um :: cnt :: rule :: dch :: fsz :: cwd :: dest :: rev :: host :: ssec :: sfix :: nfs :: rest =>
+    -- Pcp/Deep.lean: the sources classified against the target's file system, the file system `error_isolated_deep`
+    -- says the receiver ends with, and the number of error records it says are sent; looked at where the session
+    -- model (Pcp/Session.lean, repaired client) has touched something
+    match mkOpts p y um cnt rule dch fsz cwd dest, Hex.decode host, nfs.toNat? with
+    | some o, some host, some nfs =>
+      match parseEntries (rest.take nfs), parseSrcs (rest.drop nfs) with
+      | some es, some srcs =>
+        let so : SOpts := { preserve := o.preserve, reverse := flag rev, host := host, subsec := flag ssec,
+                            sentinelFix := flag sfix }
+        match resolve (fsOf es) o.cwd o.dest with
+        | some D =>
+          let items := classifyTop so (fsOf es) D srcs
+          let fs' := dTopFs o so (fsOf es) D items
+          let s := session so { skipRefused := true } o (fsOf es) (expandAll srcs)
+          let paths := (es.map (·.1) ++ (finish o s.st).touched.reverse).eraseDups
+          s!"replies=- touched=- ub=0 bad={dTopBad items} fs={commaJoin (paths.map fun p => showNode p (fs' p))}"
+        | none => "nodest"
       | _, _ => "bad-op"
     | _, _, _ => "bad-op"
   | "spec11" :: p :: dpath :: nfs :: rest =>
